@@ -157,3 +157,36 @@ fn('mab.MAB.cold_arms', props='C13', public=True, pure=True,
             'isinstance(self._imp, _KNearest))) and mem(self.arms, a) and not val(self._imp.arm_to_status, a, "is_trained") '
             'and not val(self._imp.arm_to_status, a, "is_warm")))'],
    result='alist')
+
+# --------------------------------------------------------------------------------------- construction
+for _c, _f in (('LearningPolicy.EpsilonGreedy', {'epsilon': 'real'}),
+               ('LearningPolicy.LinGreedy', {'epsilon': 'real', 'l2_lambda': 'real', 'scale': 'bool'}),
+               ('LearningPolicy.LinTS', {'alpha': 'real', 'l2_lambda': 'real', 'scale': 'bool'}),
+               ('LearningPolicy.LinUCB', {'alpha': 'real', 'l2_lambda': 'real', 'scale': 'bool'}),
+               ('LearningPolicy.Popularity', {}), ('LearningPolicy.Random', {}),
+               ('LearningPolicy.Softmax', {'tau': 'real'}),
+               ('LearningPolicy.ThompsonSampling', {'binarizer': 'optbinarizer'}),
+               ('LearningPolicy.UCB1', {'alpha': 'real'}),
+               ('NeighborhoodPolicy.Radius', {'radius': 'real', 'metric': 'str', 'no_nhood_prob_of_arm': 'optrlist'}),
+               ('NeighborhoodPolicy.KNearest', {'k': 'int', 'metric': 'str'})):
+    klass(_c, fields=_f)
+LPOL = ('{LearningPolicy.EpsilonGreedy|LearningPolicy.LinGreedy|LearningPolicy.LinTS|LearningPolicy.LinUCB|'
+        'LearningPolicy.Popularity|LearningPolicy.Random|LearningPolicy.Softmax|LearningPolicy.ThompsonSampling|'
+        'LearningPolicy.UCB1}')
+NPOL = '{NeighborhoodPolicy.Radius|NeighborhoodPolicy.KNearest}'
+fn('mab.MAB.__init__', props='C04 C08 C17 C18', public=True,
+   params={'arms': 'list:arm', 'learning_policy': 'obj:' + LPOL, 'neighborhood_policy': 'opt:obj:' + NPOL, 'seed': 'int',
+           'n_jobs': 'int', 'backend': 'optopaque'},
+   requires=[  # the library does not check these (they surface later as NumPy errors): documented preconditions
+       'is_none(neighborhood_policy) or not isinstance(neighborhood_policy, NeighborhoodPolicy.Radius) or '
+       'is_none(neighborhood_policy.no_nhood_prob_of_arm) or slen(neighborhood_policy.no_nhood_prob_of_arm) == slen(arms)',
+       # l2_lambda = 0 is accepted by the validation of LinGreedy / LinUCB but makes the initial model singular
+       '(not (isinstance(learning_policy, LearningPolicy.LinGreedy) or isinstance(learning_policy, LearningPolicy.LinUCB))) '
+       'or learning_policy.l2_lambda > 0'],
+   raises='*', modifies=['self.**'],
+   ensures=['INV',
+            # C04: all randomness of the bandit flows from one generator created from the seed
+            '[C04,seed] rngstate(self._rng) == rng_init_of(seed)', '[C04,fresh.rng] self.seed == seed',
+            # C18: the bandit's arm list is an independent copy of the caller's list
+            '[C18,arms.copy] not same(self.arms, arms)', '[C08,C18,arms.equal] self.arms == arms',
+            '[C07,unfitted] not self._is_initial_fit'])
